@@ -166,7 +166,7 @@ theorem step_agree (cfg : Cfg) (A : QName) (s₁ s₂ s₁' : State) (l : Label)
     rw [← h1 q hl]
     split at hs <;> simp at hs
     subst hs
-    rename_i hq; simp [hq]
+    rename_i hq; simp
     exact agree_upd' A q s₁ s₂ _ hl h0 _ _ _ _ _ _ (by first | exact h4 | rfl | simp [h4]) _ _ (by first | exact h3 | rfl)
   case startRead c q =>
     rw [← h1 q hl, ← h4]
@@ -193,7 +193,7 @@ theorem step_agree (cfg : Cfg) (A : QName) (s₁ s₂ s₁' : State) (l : Label)
         rw [← h1 q' hl]
         split at hs <;> simp at hs
         subst hs
-        rename_i qs0 hq; simp [hq]
+        rename_i qs0 hq; simp
         exact agree_upd' A q' s₁ s₂ _ hl h0 _ _ _ _ _ _ (by first | exact h4 | rfl | simp [h4]) _ _ (by first | exact h3 | rfl)
     all_goals simp at hs
   case startWrite c q =>
@@ -208,7 +208,7 @@ theorem step_agree (cfg : Cfg) (A : QName) (s₁ s₂ s₁' : State) (l : Label)
         rw [← h1 q' hl]
         split at hs <;> simp at hs
         subst hs
-        rename_i qs0 hq; simp [hq]
+        rename_i qs0 hq; simp
         exact agree_upd' A q' s₁ s₂ _ hl h0 _ _ _ _ _ _ (by first | exact h4 | rfl | simp [h4]) _ _ (by first | exact h3 | rfl)
     all_goals simp at hs
   case w q i a =>
